@@ -15,7 +15,7 @@ BOUNDS = {
 }
 ASSUMPTIONS = [
     'T: Eq + Hash with Eq an equivalence relation and Hash consistent with Eq (HashMap modelled as an association list keyed by ==)',
-    'HashMap iteration order is arbitrary: all permutations of the remaining entries are explored',
+    'HashMap iteration order is arbitrary: all permutations of the remaining entries are explored (arity <= 5); for arity >= 7 all orders of maps with <= 3 entries, identity and reverse order of larger maps',
     '"sides that all agree" is read as the documented rule of the code: after cancellation exactly one distinct side value remains and at most one distinct base value (so [A,B,A,C,A] staying unresolved is not an alarm)',
 ]
 BUDGET = {'quick': 240, 'thorough': 3000}
@@ -23,9 +23,9 @@ F = 'lib/src/merge.rs'
 
 def jobs(tier):
     out = []
-    for n in ([1, 3, 5, 7] if tier == 'quick' else [1, 3, 5, 7, 9]):
+    for n in ([1, 3, 5, 7, 9] if tier == 'quick' else [1, 3, 5, 7, 9, 11]):
         for sc in ('Keep', 'Accept'):
-            out.append(dict(name=f'arity{n}-{sc}', n=n, sc=sc, rung=0 if n <= 5 else n, weight=n ** 4))
+            out.append(dict(name=f'arity{n}-{sc}', n=n, sc=sc, rung=0 if n <= 5 else n, weight=n ** 4, split=('enumerate', 8) if n >= 7 else None, max_orders=720 if n <= 5 else 6))
     return out
 
 def spec(vals, sc):
@@ -58,7 +58,8 @@ def run_job(ix, job, tier):
     def witness(m, kind, out):
         return dict(input=dict(vals=[mval(m, v) for v in vals], same_change=sc),
                     expect=None if kind != 'ok' else dict(r=None if out is None else mval(m, vals[out])))
-    return explore_job(ix, job['name'], run, obligations, witness=witness, deadline=job.get('deadline'))
+    def hook(e): e.max_orders = job.get('max_orders', 720)
+    return explore_job(ix, job['name'], run, obligations, witness=witness, deadline=job.get('deadline'), split=job.get('split'), engine_hook=hook)
 
 def compare_native(case, native):
     exp = case.get('expect')
